@@ -155,14 +155,21 @@ fn ultra_check(case: &Case) -> Verdict {
 
 // ------------------------------------------------------------------------------------------------ DC clauses (enumerated over N)
 
-pub fn n_grid() -> Vec<usize> {
-    let mut v: Vec<usize> = (1..=64).collect();
-    v.extend([72, 81, 96, 100, 128, 160, 200, 256, 333, 400, 512, 700, 1024]);
+/// window lengths of the enumerated stability / DC clauses. quick: every N to 64 and 19 longer ones; thorough: every N to 256,
+/// then every 8th to 1024 (a defect confined to one window length or a narrow band of them must not slip through the grid)
+pub fn n_grid(tier: Tier) -> Vec<usize> {
+    let mut v: Vec<usize> = (1..=tier.pick(64, 256)).collect();
+    v.extend([72, 81, 90, 96, 100, 110, 128, 150, 160, 200, 256, 300, 333, 400, 500, 512, 700, 777, 1024]);
+    if tier == Tier::Thorough {
+        v.extend((264..=1024).step_by(8));
+    }
+    v.sort();
+    v.dedup();
     v
 }
-fn dc_cases(_tier: Tier) -> Vec<Case> {
+fn dc_cases(tier: Tier) -> Vec<Case> {
     let mut out = vec![];
-    for n in n_grid() {
+    for n in n_grid(tier) {
         for (vi, c) in [(5usize, 1000i64), (5, -3), (6, 1000), (6, -77), (7, 1000), (7, 5)] {
             let lin = LINEAR[vi];
             if n < lin.min_n && !(vi == 6 && n == 1) {
@@ -239,6 +246,6 @@ pub fn clauses() -> Vec<Clause> {
         v.push(Clause::generated("C10", format!("C10/{}/superposition/f64", lin.name), format!("{g} f64 with dyadic a, b (a x + b y exact); tolerance 1e-9 (|a| max|out_x| + |b| max|out_y| + max|x,y| + 1)."), 1500, 40_000, strategy(i, false), check(false)).with_shard(500));
     }
     v.push(Clause::enumerated("C10", "C10/ultra/enumerated", "Enumerated: every linear view (incl. the custom constructors) at two windows (minimum or 3; 16), x and y of 135 000 values each (thorough 1.1e6; past 2^16 and 2^17 updates) from two seeds on the 1/8 grid, a in {3/8, -5/8}, b = 5/8; f64, same oracle and tolerance as the f64 superposition clauses at every step.", ultra_cases, ultra_check).with_shard(2));
-    v.push(Clause::enumerated("C10", "C10/dc/enumerated", "Enumerated: every N in 1..64 and {72, 81, 96, 100, 128, 160, 200, 256, 333, 400, 512, 700, 1024} (CyberCycle from 3; RoofingFilter with M in {1,3,10}), constant stream c of length 2T, T = 100 max(N, M, 25): SuperSmoother within 1e-6|c| of c, RoofingFilter and CyberCycle within 1e-6|c| of 0 on [T, 2T] (f64); LaguerreFilter returns c exactly from its first output for every gamma of the grid (Q). (Sma, Ema, Alma: C04/constant.)", dc_cases, dc_check).with_shard(16));
+    v.push(Clause::enumerated("C10", "C10/dc/enumerated", "Enumerated: every N in 1..64 and {72, 81, 90, 96, 100, 110, 128, 150, 160, 200, 256, 300, 333, 400, 500, 512, 700, 777, 1024} (thorough: every N to 256, then every 8th to 1024) (CyberCycle from 3; RoofingFilter with M in {1,3,10}), constant stream c of length 2T, T = 100 max(N, M, 25): SuperSmoother within 1e-6|c| of c, RoofingFilter and CyberCycle within 1e-6|c| of 0 on [T, 2T] (f64); LaguerreFilter returns c exactly from its first output for every gamma of the grid (Q). (Sma, Ema, Alma: C04/constant.)", dc_cases, dc_check).with_shard(16));
     v
 }
